@@ -502,8 +502,8 @@ func Run(c *hx.Ctx) {
 			c.Hit("retry")
 			first := j.findings
 			j.findings = intersect(attempt(j), first)
-			if len(j.findings) < len(first) {
-				c.St.Notes = append(c.St.Notes, "timing noise filtered in scenario "+fmt.Sprint(j.scenario))
+			for _, f := range first {
+				c.St.Notes = append(c.St.Notes, fmt.Sprintf("attempt %d of scenario %d: %s — %s", a, j.scenario, f.sig, f.what))
 			}
 		}
 		seen := map[string]bool{}
